@@ -49,24 +49,19 @@ Theorem c12_counts :
 Proof. exact c12_counts_lemma. Qed.
 
 (* temporary names: whatever is listed is accounted for by a child without the
-   temporary prefix, and a child with the prefix is not listed under its name.
-   (The second statement is for names that are valid UTF-8: an invalid name is
-   only ever listed in escaped form.  That the escaped form of a name without
-   the prefix does not itself carry the prefix is a fact about
-   strings.ToValidUTF8 that is validated by the harness, not proved.) *)
+   temporary prefix, and no listed name carries the prefix (neither a name
+   that is valid UTF-8 nor the escaped form of one that is not) *)
 Theorem c12_temp_omitted :
   forall H ign flt cfg rootdev p mask c out,
     describes_kids H ign flt cfg rootdev p mask c out ->
     forall k e, lookup k out = Some e ->
+                is_temp k = false /\
                 exists n y, In (n, y) c /\ is_temp n = false /\ out_key n = Some k.
-Proof. exact listed_not_temp. Qed.
-
-Theorem c12_temp_not_listed :
-  forall H ign flt cfg rootdev p mask m c out,
-    escape_safe (NDir m c) = true ->
-    describes_kids H ign flt cfg rootdev p mask c out ->
-    forall n y, In (n, y) c -> is_temp n = true -> utf8_valid n = true -> lookup n out = None.
-Proof. exact temp_not_listed. Qed.
+Proof.
+  exact (fun H ign flt cfg rootdev p mask c out Hd k e El =>
+           conj (no_temp_key H ign flt cfg rootdev p mask c out Hd k e El)
+                (listed_not_temp H ign flt cfg rootdev p mask c out Hd k e El)).
+Qed.
 
 (* the checker applied to the implementation's snapshots is sound *)
 Theorem c12_check_sound :
@@ -104,7 +99,6 @@ Print Assumptions c12_describes.
 Print Assumptions c12_absent.
 Print Assumptions c12_counts.
 Print Assumptions c12_temp_omitted.
-Print Assumptions c12_temp_not_listed.
 Print Assumptions c12_check_sound.
 Print Assumptions c12_model_passes.
 Print Assumptions c12_nontrivial.
